@@ -584,9 +584,11 @@ def posix_probe(ctx, n):
         ents += [jp + "/" + b"dd".hex() + ":d", jp + "/" + b"ff".hex() + ":f", jp + "/" + b"ll".hex() + ":l:" + b"dd".hex()]
         names = [b"a", b"b", b"a/b", b"a/c", b"../dd/n", b"../ll/n", b"../ff", b"../ff/x", b"s", b"s/x", b"t", b"t/y", b"../zz", b"a/../b", b"./a", b"s/../../dd/m",
                  os.fsencode(str(base / "j" / "dd")) + b"/abs", b"u", b"a//b", b""]
-        targets = [b"../dd", b"../ff", b"a", b"b", b"..", b".", b"t", b"s", os.fsencode(str(base / "j" / "dd")), b"../nonexist", os.fsencode(str(base / "j" / "nonexistent_abs"))]
+        # no "." target: a followed utimens on R itself changes only R's mtime, which the snapshot cannot tell from entry creation
+        targets = [b"../dd", b"../ff", b"a", b"b", b"..", b"t", b"s", os.fsencode(str(base / "j" / "dd")), b"../nonexist", os.fsencode(str(base / "j" / "nonexistent_abs"))]
         scs, res = [], []
         before = snapshot(top, R)
+        R_before = lstat_rec(R)[0]
         cwd = os.getcwd()
         os.chdir(R)
         try:
@@ -616,7 +618,7 @@ def posix_probe(ctx, n):
                 scs.append(tok); res.append(r)
         finally:
             os.chdir(cwd)
-        escaped = bool(diff_snap(before, snapshot(top, R)))
+        escaped = bool(diff_snap(before, snapshot(top, R))) or lstat_rec(R)[0] != R_before
         lines.append("monitor /%s %d %s %s" % ("/".join(x.hex() for x in absR), len(ents), " ".join(ents), " ".join(scs)))
         reals.append((scs, res, escaped))
         shutil.rmtree(top, ignore_errors=True)
